@@ -10,6 +10,7 @@ RULE = ("random nested programs over {with no_grad, with retain_grads} to depth 
         "and checks requires_grad / grad_fn / is_leaf / backward() refusal / setter and retain_grad()/numpy()/detach() guards against a stack "
         "model; backward inside/outside the contexts checks leaf-keeps / intermediate-releases / retained-keeps; distinct key = nesting "
         "structure (kinds, context source, raise flags); non-trivial = depth >= 2 or a pre-constructed / re-entered context or an exception exit")
+RULE += (' Added after the seeded rounds: identity-shaped ops (x**0, x**1, x*1, no-op reshapes), complex / bool dtypes, a rejected setter leaves the flag off, `requires_grad = False` always accepted, leaves that once were results of untracked ops, intermediates receiving an all-zero gradient; context objects that cannot be re-entered are replaced and counted.')
 ASSUMPTIONS = ["for retain_grads only the two unambiguous combinations are asserted: built and differentiated inside => interior gradients kept; both "
                "outside with no retain_grad() => released",
                "requesting requires_grad=True for an integer tensor while gradients are disabled may either raise or yield a tensor that does not require grad"]
